@@ -133,7 +133,7 @@ def run(R, tier, seed, driver_ok):
                     e2 = fit_on(name, p2, X.dot(Q), y, build, sd)
                     M0, M2 = b2.get_mahalanobis_matrix(), e2.get_mahalanobis_matrix()
                     R.case(('c19', name, 'rotation', X.tobytes().hex()[:40]), True, branch='rotation')
-                    tolr = 1e-5 if name in ('LFDA', 'LMNN', 'MMC', 'LSML') else 1e-6
+                    tolr = 1e-5 if name in ('LFDA', 'LMNN', 'MMC', 'LSML', 'ITML') else 1e-6      # (iterative solvers amplify the rounding of X·Q)
                     if rel(Q.T.dot(M0).dot(Q), M2) > tolr * max(1.0, np.linalg.cond(M0) * 1e-6):
                         R.violation(f'{name}/rotation', f'{name}: M learned on rotated data differs from QᵀMQ by {rel(Q.T.dot(M0).dot(Q), M2):.3g} (relative)', case)
                 except Exception as e:
